@@ -88,7 +88,8 @@ func (e *EngineImpl) startRaftNode(opId uint64, nodeId uint64, dbPt *DBPTInfo, c
 	dbPt.node = node
 	dbPt.proposeC = dbPt.node.GetProposeC()
 	dbPt.ReplayC = replayC
-	go readCommitFromRaft(node, client, storage)
+	dbPt.replayDone = make(chan struct{})
+	startCommitLoop(node, client, storage, dbPt.replayDone)
 
 	var leaderPtID = -1
 	raftGroups := e.metaClient.DBRepGroups(database)
